@@ -223,6 +223,8 @@ def rule_identity(ctx, px):
                 stores.append((ast.unparse(st.value), pyfront.guard_terms(gd), ast.unparse(st.targets[0])))
             elif isinstance(st, ast.Return) and st.value is not None and not isinstance(st.value, ast.Name):
                 stores.append((ast.unparse(st.value), pyfront.guard_terms(gd), None))
+        # a match computed by the caller and handed to the helper as an argument is the match (`is_reserved` := self._matches(...))
+        stores = [(v_, [(_amap.get(e, e), p) for e, p in t], x_) for v_, t, x_ in stores]
         ok = bool(stores) and all(any(e.startswith("self._matches(") and p for e, p in t) for _, t, _v in stores)
         ctx.ob(R, g0.module.rel, f"{g0.short} :: token modified only under _matches(...)", ok, f"analysed {g.short}: {stores}", g0.node.lineno)
         ok = all(any(v == f"self._stropping_prefix + {a} + self._stropping_suffix" for a in (alias | ({var} if var else set()))) for v, _, var in stores)
